@@ -77,6 +77,11 @@ def gen_history(rng, tier, threaded):
     # documents are variants of one another (same shape, other leaf values) plus unrelated ones
     docs = [base] + [vary(rng, base) if rng.random() < 0.7 else c15._stringy(rng, G.doc(rng, 3, 4), 0.3)
                      for _ in range(rng.randint(1, 4))]
+    if rng.random() < 0.4:
+        # an ==-equal twin with differently typed numbers (1 / 1.0 / True): caches keyed by
+        # equality of documents confuse the two
+        from . import c17
+        docs.append(c17.retyped(base))
     schemas = [_schema_terms(rng, docs, tier) for _ in range(rng.randint(2, 4))]
     if not any(r.get("cast") for s in schemas for r in s):
         schemas[0][0]["cast"] = [["str", "int"]]
